@@ -122,6 +122,14 @@ Theorem C09_merge_union_partial :
               Rep T (rev gs ++ [g0]) None t a /\ hperm a (expected None t).
 Proof. exact pure_union. Qed.
 
+(* ---- every file, filtered out of the merged model the way serialize does it (local membership empty or contains the
+        file), is the partial view of that file, up to the order of siblings [U, class Good] *)
+Theorem C09_file_projection :
+  forall (T : tables) (defref v : N) (n : nat) (t : mtree), (depth t <= n)%nat -> Good T defref v t ->
+  forall (F : list N) (inh : option (list N)) (a : htree) (f : N),
+    In f F -> In f (mfiles t) -> Rep T F inh t a -> hperm (hproj f a) (pview f t).
+Proof. exact Rep_project. Qed.
+
 Theorem C09_view_is_projection :
   forall (n : nat) (t : mtree), (depth t <= n)%nat -> forall (g : N) (e : Parser.etree),
     project g t = Some e -> htree_of_etree e = pview g t.
